@@ -45,6 +45,16 @@ fn main() {
                 println!("REPLAY verdict={}", if bad { "VIOLATED" } else { "ok" });
                 std::process::exit(if bad { 1 } else { 0 });
             }
+            if args[2].starts_with('Q') {
+                let words: Vec<u64> = args[3..]
+                    .iter()
+                    .map(|a| u64::from_str_radix(a.trim_start_matches("0x"), 16).expect("hex"))
+                    .collect();
+                if let Some(bad) = mon::quire::replay_state_op(&args[2], &words) {
+                    println!("REPLAY verdict={}", if bad { "VIOLATED" } else { "ok" });
+                    std::process::exit(if bad { 1 } else { 0 });
+                }
+            }
             if args[2].contains("::poly") {
                 let words: Vec<u64> = args[3..]
                     .iter()
@@ -191,16 +201,17 @@ fn main() {
                 let prop2 = prop.clone();
                 let tier_s = if ctx.quick() { "quick" } else { "thorough" };
                 *rt::HANG_HANDLER.lock().unwrap() = Some(std::sync::Arc::new(Box::new(move |h: &rt::HangInfo| {
-                    let (name, ar) = if h.op < names.len() {
-                        (names[h.op].clone(), arity[h.op])
+                    let (name, inputs) = if h.op < names.len() {
+                        (names[h.op].clone(), [h.a, h.b, h.c][..arity[h.op]].to_vec())
+                    } else if !h.label.is_empty() {
+                        (h.label.clone(), h.words.clone())
                     } else {
-                        (format!("special#{}", h.op), 3)
+                        (format!("special#{}", h.op), vec![h.a, h.b, h.c])
                     };
-                    let inputs = [h.a, h.b, h.c];
                     let f = rt::Failure {
                         op: name,
                         kind: "hang".into(),
-                        inputs: inputs[..ar].to_vec(),
+                        inputs,
                         got: "NO RETURN".into(),
                         want: "a value".into(),
                         note: format!("no progress for {} s inside the code under test", rt::HANG_SECS),
